@@ -8,11 +8,18 @@ import (
 	"reflect"
 	"strings"
 	"testing"
+	"time"
 
 	"github.com/ethereum/go-ethereum/accounts/abi"
 
+	sdk "github.com/cosmos/cosmos-sdk/types"
+	bsctypes "github.com/teleport-network/teleport/x/xibc/clients/light-clients/bsc/types"
+	ethtypes "github.com/teleport-network/teleport/x/xibc/clients/light-clients/eth/types"
+	xibctmtypes "github.com/teleport-network/teleport/x/xibc/clients/light-clients/tendermint/types"
+	clienttypes "github.com/teleport-network/teleport/x/xibc/core/client/types"
 	"github.com/teleport-network/teleport/x/xibc/core/host"
 	packettypes "github.com/teleport-network/teleport/x/xibc/core/packet/types"
+	"github.com/teleport-network/teleport/x/xibc/exported"
 )
 
 func init() { Drivers["codec"] = driveCodec }
@@ -285,6 +292,48 @@ func driveCodec(t *testing.T, in, out string, seed int64) {
 				})
 				line["encdec"], pan = ok, pan || pn
 			}
+			if pan {
+				line["res"] = "panic"
+			}
+		} else if str(cs["fam"]) == "cons" {
+			// a consensus state stored by the client keeper under (revision, number), read back by the light client's own
+			// ascending iterator and by the keeper's iterator over all clients
+			h := clienttypes.NewHeight(numOf(str(cs["rev"])), numOf(str(cs["n"])))
+			ok, pan := guard(func() bool {
+				ctx, _ := c.Ctx().CacheContext()
+				ck := c.App.XIBCKeeper.ClientKeeper
+				name := "cons-" + str(cs["ty"])
+				var cons exported.ConsensusState
+				var iter func(sdk.KVStore, func(exported.Height) bool)
+				switch str(cs["ty"]) {
+				case "tm":
+					cons = &xibctmtypes.ConsensusState{Timestamp: time.Unix(1, 0).UTC(), Root: []byte{1}, NextValidatorsHash: make([]byte, 32)}
+					iter = xibctmtypes.IterateConsensusStateAscending
+					xibctmtypes.SetIterationKey(ck.ClientStore(ctx, name), h) // what the tendermint client writes next to every consensus state
+				case "bsc":
+					cons = &bsctypes.ConsensusState{Timestamp: 1, Height: h, Root: []byte{1}}
+					iter = bsctypes.IterateConsensusStateAscending
+				default:
+					cons = &ethtypes.ConsensusState{Timestamp: 1, Height: h, Root: []byte{1}}
+					iter = ethtypes.IterateConsensusStateAscending
+				}
+				ck.SetClientConsensusState(ctx, name, h, cons)
+				got := []string{}
+				iter(ck.ClientStore(ctx, name), func(x exported.Height) bool {
+					got = append(got, x.String())
+					return false
+				})
+				all := []string{}
+				ck.IterateConsensusStates(ctx, func(chainName string, cs clienttypes.ConsensusStateWithHeight) bool {
+					if chainName == name {
+						all = append(all, cs.Height.String())
+					}
+					return false
+				})
+				_, found := ck.GetClientConsensusState(ctx, name, h)
+				return found && len(got) == 1 && got[0] == h.String() && len(all) == 1 && all[0] == h.String()
+			})
+			line["parseback"] = ok
 			if pan {
 				line["res"] = "panic"
 			}
